@@ -46,11 +46,14 @@ pub struct ConnectCase {
     /// client_id / keepalive_interval / session_expiry_interval are each called twice, first with a decoy value
     #[serde(default)]
     pub decoys: bool,
+    /// the client identifier consists of two-byte characters (`id_len` still counts bytes; odd lengths get one ASCII letter)
+    #[serde(default)]
+    pub id_mb: bool,
 }
 
 fn connect_spec(c: &ConnectCase) -> Spec {
     let mut s = Spec::plain(c.rx, c.tx);
-    s.id = "c".repeat(c.id_len);
+    s.id = if c.id_mb { format!("{}{}", "\u{e9}".repeat(c.id_len / 2), "c".repeat(c.id_len % 2)) } else { "c".repeat(c.id_len) };
     s.keepalive = c.keepalive;
     s.expiry = c.expiry;
     s.decoys = c.decoys;
@@ -77,7 +80,9 @@ fn connect_spec(c: &ConnectCase) -> Spec {
                 p(0x26, PVal::Pair(b"k".to_vec(), b"v".to_vec())),
             ],
         }),
-        _ => Some(WillSpec { topic: "w".into(), data: vec![], qos: c.will_qos, retain: c.will_retain, props: vec![] }),
+        3 => Some(WillSpec { topic: "w".into(), data: vec![], qos: c.will_qos, retain: c.will_retain, props: vec![] }),
+        // the longest will there is: 65535-byte payload, topic of two-byte characters
+        _ => Some(WillSpec { topic: "w/\u{e9}\u{e9}".into(), data: (0..65535usize).map(|i| (i * 37 + 11) as u8).collect(), qos: c.will_qos, retain: c.will_retain, props: vec![p(0x18, PVal::U32(0xFFFF_FFFF))] }),
     };
     s
 }
@@ -187,7 +192,7 @@ pub fn eval_connect(c: &ConnectCase) -> CaseOut {
 
 fn connect_cases(tier: Tier) -> Vec<ConnectCase> {
     let mut v = Vec::new();
-    let base = ConnectCase { rx: 64, tx: 256, id_len: 3, keepalive: 60, expiry: 100, auth: 0, will: 0, will_qos: 0, will_retain: false, second: false, decoys: false };
+    let base = ConnectCase { rx: 64, tx: 256, id_len: 3, keepalive: 60, expiry: 100, auth: 0, will: 0, will_qos: 0, will_retain: false, second: false, decoys: false, id_mb: false };
     // every keep-alive value
     for ka in 0..=65535u16 {
         if tier == Tier::Quick && ka > 300 && ka % 251 != 0 && ka < 65000 {
@@ -222,6 +227,17 @@ fn connect_cases(tier: Tier) -> Vec<ConnectCase> {
                     v.push(ConnectCase { id_len, keepalive, expiry, auth, second, decoys: true, ..base.clone() });
                 }
             }
+        }
+    }
+    // client identifiers of two-byte characters up to exactly 64 bytes; the longest possible will
+    for id_len in [2usize, 23, 63, 64] {
+        for second in [false, true] {
+            v.push(ConnectCase { id_len, id_mb: true, second, ..base.clone() });
+        }
+    }
+    for will_qos in 0..3u8 {
+        for auth in [0u8, 3] {
+            v.push(ConnectCase { will: 4, will_qos, will_retain: will_qos == 2, auth, tx: 70_000, ..base.clone() });
         }
     }
     // receive-buffer sizes (advertised Maximum Packet Size) incl. the 1/2/3-byte varint boundaries of the value
